@@ -13,6 +13,11 @@ SX_NOTE = ('Trusted: CPython, z3 (QF_NRA/LIA), the symx proxies and numpy facade
            'counted). Bounded: only the stated row counts / domains; timeouts, unknown or non-reproducing models are exit 2, never success.')
 SX_TECH = 'bounded symbolic execution of the real metric code over z3 terms (own proxy executor symx: DFS over branch decisions with z3 feasibility, per-path unsat of the negated claim, concrete replay of models)'
 
+BM_NOTE = ('Trusted: z3 QF_BV; the AST->IR front end (vf/pybmc_front.py; unsupported syntax = exit 2) and the models of threading.Condition (re-entrant lock, FIFO waiters), '
+           'queue.SimpleQueue/Queue, thread start/join; pre-emption only at the points selected by the static lockset/Lipton analysis. Every reported trace and one passing '
+           'execution per scenario are replayed on the real classes with controlled primitives (a non-matching replay is exit 2). Bounded: threads, elements, depth as listed in the evidence.')
+BM_TECH = 'bounded model checking of the real threaded code: python source -> goto IR (ast) -> macro-step transition relation with a symbolic scheduler -> z3 QF_BV; deadlock / bad-final-state / unwinding queries; schedule replay on the real code'
+
 CHECKS = {
     'C09': dict(engine='xh', level='other', design_ref='DESIGN.md#c09',
                 text='Every obligation (shard interval arithmetic, nested shards, from_state, round-robin shards, merged-sequence '
@@ -70,6 +75,11 @@ CHECKS = {
                 text='Trees are built by a recursive builder driven by symbolic choice ints (depth 2 quick / 3 thorough) with symbolic int leaves; CrossHair/z3 proves on all paths '
                      'get-after-set, the frame condition with object identity, non-mutation and sharing of untouched sub-trees, no-op sets, leaf enumeration, aligned multi-key reads, '
                      'apply over leaves only, special keys (SELF, SKIP, fresh keys, index append) and two-step histories against an independent reference. Bounded.'),
+    'C04': dict(engine='pybmc', level='model_checking', design_ref='DESIGN.md#c04', note=BM_NOTE, technique=BM_TECH,
+                text='The current source of IteratorQueue and _release_and_notify is compiled to a transition system; for each scenario (producers x elements x consumers, '
+                     'get / get_batch with batch size and blocking flag, bounded and unbounded buffers) z3 decides over ALL interleavings at the pre-emption points that no deadlock '
+                     'and no bad final state (element lost/duplicated/reordered, wrong end-of-stream payload) is reachable, and an unwinding query shows the depth bound is sufficient. '
+                     'Quick: 2 threads; thorough: 3 threads and longer streams.'),
 }
 NA = {}
 PENDING = 'check not built yet (see DESIGN.md build order)'
@@ -87,6 +97,8 @@ m = {
     'engines': [
         {'name': 'xh', 'path': 'vf/xh.py', 'serves_properties': sorted(k for k, v in CHECKS.items() if v['engine'] == 'xh'),
          'kind_free_text': 'CrossHair (z3) bounded symbolic execution of real repo functions through generated fixed-arity contract harnesses'},
+        {'name': 'pybmc', 'path': 'vf/pybmc.py', 'serves_properties': sorted(k for k, v in CHECKS.items() if v['engine'] == 'pybmc'),
+         'kind_free_text': 'AST front end (vf/pybmc_front.py) + macro-step BMC back end (z3 QF_BV) + schedule replay on the real code (vf/bmc_replay.py)'},
         {'name': 'symx', 'path': 'vf/symx.py', 'serves_properties': sorted(k for k, v in CHECKS.items() if v['engine'] == 'symx'),
          'kind_free_text': 'own proxy executor: real metric code runs on z3 Real/Int/Bool proxies inside object numpy arrays behind a numpy facade; DFS over branches; z3 discharges claims per path'},
     ],
